@@ -64,7 +64,8 @@ def handleCum (kv : KV) (s : Stream) (kind : SkipKind) : String :=
       | some _, none => withCfg != rNone                       -- no until-EOF mdat: the option is inert
       | some t, some _ =>
         if t < 8 then withCfg != "err:parse:InvalidInput" && !inert   -- a size below the header length
-        else withCfg != rewritten                              -- as if the box had declared that 32-bit size
+        else rewritten != "-" && withCfg != rewritten          -- as if the box had declared that 32-bit size ("-": not
+                                                               -- comparable - several until-EOF boxes, misaligned scan)
   match bad with
   | some (k, a, b) => s!"SPEC {id} which=cumulative-size-not-equivalent-to-declared-size sig=C14:cum t={k} with-config={a.take 70} rewritten={b.take 70} none={rNone.take 40}"
   | none =>
